@@ -167,7 +167,13 @@ pub fn explore(ctx: &Ctx) {
             }
         }
     }
-    ctx.alphabet("main", json!({"jobs_site_x_method": jobs.len(), "lats": lats, "zones": zs, "methods": "ANGLE6", "dates": all.len()}));
+    // far-from-natural zone offsets (Dhuhr-relative times wrap around local midnight)
+    for (lat, lon, gmt) in [(30.0, 0.0, 9.0), (-45.0, 120.0, -4.0), (55.0, -60.0, 6.0), (-15.0, -150.0, 2.0)] {
+        for m in [Method::Mwl, Method::Egyptian] {
+            jobs.push((Site::new(lat, lon, 0.0, gmt), params_conv(m)));
+        }
+    }
+    ctx.alphabet("main", json!({"far_zone_sites": 4, "jobs_site_x_method": jobs.len(), "lats": lats, "zones": zs, "methods": "ANGLE6", "dates": all.len()}));
     par_jobs(ctx, &jobs, |(site, p), l| {
         for &d in &all {
             judge(ctx, l, p, *site, d);
